@@ -15,6 +15,7 @@ code->spec: the recorded steps (one event per statement at the return of its val
 import json
 import os
 import random
+import time
 from concurrent.futures import ProcessPoolExecutor
 
 from .. import absapi, core, tlc
@@ -306,30 +307,47 @@ def tok_class(t, tables):
     return 'statement:' + k
 
 
-PLAIN_FIELDS = {'name', 'count', 'view', 'item', 'item.name', 'item.leaf.tag', 'parent'}
-
-
-def req_class(req, tables=None):
-    """names the entries of a request block that are not plain (a plain entry sets a valid field once, with a value, with no
-    or an ordinary input parameter); e.g. request[item,item.name], request[name/p=builtin(print)], request[parent%project]"""
-    bases = {}
+def req_class(req, tables):
+    """names what is not plain about a request block (a plain entry sets a valid field once, with a value, with no or an
+    ordinary input parameter), e.g. request[top-then-sub], request[p=builtin(print)], request[resource-style]"""
+    F = tables['fields']
+    feats = set()
+    last = {}
+    params = []
     for e in req:
-        if e['path']:
-            bases[e['path'][0]] = bases.get(e['path'][0], 0) + 1
-    params = [e['p'] for e in req if e['p']]
-    out = []
-    for e in req:
-        d = entry_dict(e)
-        pc = name_class(e['p'], tables) if e['p'] and tables else (e['p'] or '')
-        plain = ('value' in d and d.get('field') in PLAIN_FIELDS and 'frob' not in d and d['value'] != 'GREEN'
-                 and bases[e['path'][0]] == 1 and pc in ('', 'v') and params.count(e['p']) <= 1)
-        if plain:
+        if not e['val']:
+            feats.add('no-value')
+        if e['sp']:
+            feats.add('spurious-keyword')
+        if e['val'] == 'GREEN':
+            feats.add('enum=GREEN')
+        if e['p']:
+            pc = name_class(e['p'], tables)
+            if pc != 'v':
+                feats.add('p=' + pc)
+            if e['p'] in params:
+                feats.add('p-repeated')
+            params.append(e['p'])
+        if not e['path']:
+            feats.add('no-field')
             continue
-        s = d.get('field', '(no field)') + ('=' + d['value'] if d.get('value') in ('RED', 'GREEN') else '')
-        s += '' if 'value' in d else '(no value)'
-        s += '/p=' + pc if pc else ''
-        out.append(s + ('/spurious-keyword' if 'frob' in d else ''))
-    return 'request[' + ','.join(out) + ']'
+        base = e['path'][0]
+        if e['res']:
+            kind = 'resource'
+            feats.add('resource-style' if base in F['GetReq'] else 'resource-style-bad-base')
+        else:
+            kind = 'top' if len(e['path']) == 1 else 'sub'
+            m = 'GetReq'
+            for i, a in enumerate(e['path']):
+                f = F[m].get(a)
+                if not f or (f['kind'] != 'message' and i != len(e['path']) - 1):
+                    feats.add('bad-path')
+                    break
+                m = f['msg']
+        if base in last and (last[base], kind) not in (('sub', 'sub'), ('resource', 'resource')):
+            feats.add(f'{last[base]}-then-{kind}')
+        last[base] = kind
+    return 'request[' + ','.join(sorted(feats)) + ']'
 
 
 def entry_text(e):
@@ -486,6 +504,7 @@ def validate(chk, label, traces, owners, tables, fnd):
     """code -> spec: batches through SampleCfgTrace; total verdicts (validate_all re-runs after a rejection)."""
     pos = 0
     nruns = nacc = nrej = 0
+    t0 = time.time()
     while pos < len(traces):
         chunk = traces[pos:pos + 60000]
         accepted, rejected, runs = tlc.validate_all('SampleCfgTrace', 'SampleCfgTrace.cfg', chunk, max_rejects=25, timeout=3000)
@@ -505,7 +524,7 @@ def validate(chk, label, traces, owners, tables, fnd):
         # validate_all stops after max_rejects rejections: go on behind the last one
         pos += (rejected[-1][0] + 1) if len(rejected) >= 25 else len(chunk)
     chk.traces += nacc
-    chk.tlc_runs.append(dict(label=f'SampleCfgTrace batch {label}', runs=nruns, accepted=nacc, rejected=nrej))
+    chk.tlc_runs.append(dict(label=f'SampleCfgTrace batch {label}', runs=nruns, accepted=nacc, rejected=nrej, wall_s=round(time.time() - t0, 1)))
 
 
 def main(chk, args):
@@ -520,16 +539,20 @@ def main(chk, args):
     chk.add_tlc(r, 'SampleCfg liveness (tiny scope)')
     mcfg = open(os.path.join(tlc.SPEC, 'SampleCfg.mutant.cfg')).read()
     rejected_by = {}
+    t0 = time.time()
     for m in MUTANTS:
         rm = tlc.run('SampleCfg', mcfg.replace('Mutant = "none"', f'Mutant = "{m}"'), workers=2, deadlock=True, timeout=600)
         if rm.ok or not (rm.violated or '').startswith('Inv_'):
             raise core.MachineryError(f'SampleCfg mutant {m} not rejected by an invariant: {rm.summary()}')
         rejected_by[m] = rm.violated
     chk.extra['mutants_rejected_by'] = rejected_by
+    chk.extra['mutants_wall_s'] = round(time.time() - t0, 1)
     # 2. spec -> code cases, one emission scope at a time
-    scopes = ['small', 'nest', 'req'] if quick else ['full', 'nest', 'len3', 'req3', 'names', 'exprs', 'forms']
+    scopes = ['small', 'nest', 'req'] if quick else ['full', 'nest', 'len3', 'req3', 'names', 'exprs', 'exprs2', 'forms']
     emits = [(f'SampleCfg.emit.{n}.cfg', {}) for n in scopes]
-    emits.append(('SampleCfg.emit.sim.cfg', dict(simulate=2000 if quick else 30000, depth=16, seed=chk.seed)))
+    # the simulated sample: TLC -simulate with the seed of the run (several batches in the thorough tier, to bound memory)
+    for i in range(1 if quick else 4):
+        emits.append(('SampleCfg.emit.sim.cfg', dict(simulate=2000 if quick else 8000, depth=16, seed=chk.seed * 10 + i)))
     SAMPLE_ERRORS.update(sample_error_classes())
     sample_errors = SAMPLE_ERRORS
     fnd = Findings()
@@ -549,8 +572,10 @@ def main(chk, args):
             if k not in seen:
                 seen.add(k); cases.append(c)
         del cs
-        chk.extra['cases_by_cfg'][cfg] = len(cases)
+        chk.extra['cases_by_cfg'][cfg] = chk.extra['cases_by_cfg'].get(cfg, 0) + len(cases)
+        t0 = time.time()
         results = run_all(cases, tables, procs)
+        chk.extra.setdefault('validator_runs_wall_s', []).append([cfg, round(time.time() - t0, 1)])
         traces, owners = [], []
         for c, res in zip(cases, results):
             ev = res['events']
